@@ -332,3 +332,24 @@ def bystander_history(rng, t, d=None, n=None):
         except Exception:
             pass
     return done
+
+
+def composed(rng, t, kind, d):
+    """t composed (in place or not) with another member it composes in place with - a product that keeps t's class.
+    Returns (product, how) or (t, None) when no such partner can be built here."""
+    import menpo.transform as mt
+    if not isinstance(t, mt.Homogeneous) or t.h_matrix.shape[0] != t.h_matrix.shape[1]:
+        return t, None
+    pool = [kind, "UniformScale", "Translation", "Rotation", "NonUniformScale", "Similarity", "Affine"]
+    rng.shuffle(pool)
+    for k in pool:
+        try:
+            other, _ = make(rng, k, d)
+            if not isinstance(other, t.composes_inplace_with):
+                continue
+            how = ["compose_before", "compose_after", "compose_before_inplace", "compose_after_inplace"][int(rng.integers(0, 4))]
+            r = getattr(t, how)(other)
+            return (t if how.endswith("inplace") else r), how
+        except Exception:
+            continue
+    return t, None
